@@ -552,10 +552,21 @@ class Gmd(Harness):
                           for _ in range(2)]) if cfg['real'] else crandn(
                               rng, 2, 2)
             assert not self._check(A)
-        # larger sizes only concretely (outside the symbolic bound)
-        for _ in range(5):
-            assert not self._check(crandn(rng, 4, 3))
-        return 15
+        # larger sizes only concretely (outside the symbolic bound): the
+        # permutation bookkeeping of gmd only matters from ~5 singular values
+        from pysym.runner import ConcreteViolation
+        k = 10
+        for n in (3, 4, 5, 6, 7, 8):
+            for _ in range(12 if n >= 5 else 4):
+                A = crandn(rng, n, n) if rng.random() < 0.5 else np.array(
+                    [[rng.gauss(0, 1) for _ in range(n)] for _ in range(n)])
+                bad = self._check(A)
+                if bad:
+                    raise ConcreteViolation(
+                        'C20/gmd/size>=3:' + '+'.join(bad),
+                        dict(size=n, matrix=str(A)[:400], failed=bad))
+                k += 1
+        return k
 
 
 # ---------------------------------------------------------------------------
